@@ -165,7 +165,7 @@ CaseOfBundle(b, id) ==
         w   == WireOf(b)
     IN [op |-> "req", id |-> id, method |-> w.method, uri |-> w.uri, version |-> w.version,
         headers |-> w.headers, body |-> w.body, cfg |-> b.cfg, script |-> b.script, sign |-> dir,
-        leak |-> Family \in {"leak_defects", "leak_scripts", "leak_sigmut", "leak_long", "leak_cfg", "leak_midnight"}
+        leak |-> Family \in {"leak_defects", "leak_scripts", "leak_sigmut", "leak_long", "leak_cfg", "leak_midnight", "leak_window", "leak_scope"}
                  \/ (Family = "cfgmix" /\ id[9] = 2)]
 
 FirstRuleOf(b) == Q(EnvOfWire(MkX(b.L)), b.cfg).err.rule
@@ -367,7 +367,12 @@ MidnightCases == <<
     <<B("20160229T235959Z"), Inst(2016, 3, 1, 0, 0, 0, 0), B("20160229")>>,
     <<B("20160301T000000Z"), Inst(2016, 2, 29, 23, 59, 59, 0), B("20160301")>>,
     <<B("20151231T235959Z"), Inst(2016, 1, 1, 0, 5, 0, 0), B("20151231")>>,
-    <<B("20160101T000000+0000"), Inst(2015, 12, 31, 23, 55, 0, 0), B("20160101")>> >>
+    <<B("20160101T000000+0000"), Inst(2015, 12, 31, 23, 55, 0, 0), B("20160101")>>,
+    \* the last second of a day with a fraction: still that day
+    <<B("20150830T235959.600Z"), Inst(2015, 8, 30, 23, 59, 59, 0), B("20150830")>>,
+    <<B("20150830T235959.600Z"), Inst(2015, 8, 30, 23, 59, 59, 0), B("20150831")>>,
+    <<B("20150830T235959,999999999Z"), Inst(2015, 8, 31, 0, 0, 0, 0), B("20150830")>>,
+    <<B("20151231T235959.9999999999Z"), Inst(2016, 1, 1, 0, 0, 1, 0), B("20151231")>> >>
 
 \* ---------------------------------------------------------------- C04 material
 WindowNows == << Inst(2015, 8, 30, 12, 36, 0, 0), Inst(2016, 2, 29, 0, 0, 0, 0), Inst(2015, 12, 31, 23, 59, 59, 0),
@@ -398,7 +403,8 @@ RenderTs(inst, style) ==
         loc == AddSec(inst, off)
         f   == Fields(loc)
         ext == style \in {2, 3, 6}
-        frac == IF inst[3] # 0 \/ style = 5 THEN Frac9(inst[3]) ELSE <<>>
+        \* style 8: a tenth fraction digit (9): digits beyond the ninth are dropped, never rounded
+        frac == IF style = 8 THEN Frac9(inst[3]) \o <<57>> ELSE IF inst[3] # 0 \/ style = 5 THEN Frac9(inst[3]) ELSE <<>>
         zone == CASE style = 3 -> B("+05:30") [] style = 4 -> B("-0245") [] style = 6 -> B("+00:30")
                   [] style = 7 -> B("-0045") [] OTHER -> B("Z")
     IN Dec(f[1], 4) \o (IF ext THEN <<45>> ELSE <<>>) \o Dec(f[2], 2) \o (IF ext THEN <<45>> ELSE <<>>) \o Dec(f[3], 2)
@@ -540,6 +546,12 @@ DupCases == <<
              << [k |-> "hdrins", at |-> 4, name |-> B("X-Amz-Security-Token"), v |-> B("tokenTWO")] >>, NoOver),
     WithPost([HdrB EXCEPT !.L.hasToken = TRUE, !.L.token = B("tokenONE"), !.L.signed = <<B("host"), B("x-amz-date"), B("x-amz-security-token")>>],
              << [k |-> "hdrins", at |-> 3, name |-> B("X-Amz-Security-Token"), v |-> B("tokenTWO")] >>, NoOver),
+    \* header carrier: the session token is the header's; an X-Amz-Security-Token query parameter is an ordinary parameter
+    WithPost([HdrB EXCEPT !.L.hasToken = TRUE, !.L.token = B("tokenONE"), !.L.query = B("X-Amz-Security-Token=tokenTWO"),
+                          !.L.signed = <<B("host"), B("x-amz-date"), B("x-amz-security-token")>>], <<>>, NoOver),
+    WithPost([HdrB EXCEPT !.cfg.fold = TRUE, !.L.method = B("POST"), !.L.hasToken = TRUE, !.L.token = B("tokenONE"),
+                          !.L.hdrs = @ \o <<FormHdr>>, !.L.body = B("X-Amz-Security-Token=tokenBODY"),
+                          !.L.signed = <<B("content-type"), B("host"), B("x-amz-date"), B("x-amz-security-token")>>], <<>>, NoOver),
     \* both carriers at once
     WithPost([HdrB EXCEPT !.L.both = TRUE], <<>>, NoOver),
     WithPost([QryB EXCEPT !.L.both = TRUE], <<>>, NoOver),
@@ -723,7 +735,8 @@ Dim(k) ==
       \* carrier, X-Amz-Expires value, where it travels, age of the request
       [] Family = "expires"  -> V(<<2, Len(ExpiresValues), 2, Len(ExpiresAges)>>, k)
       \* carrier, server instant with a fraction, probe, rendering
-      [] Family = "window_frac" -> V(<<2, Len(FracNows), 14, 2>>, k)
+      [] Family \in {"window_frac", "leak_window"} -> V(<<2, Len(FracNows), 14, 3>>, k)
+      [] Family = "leak_scope" -> V(<<2, Len(ScopeVariants)>>, k)
       \* the full product of configuration switches: carrier, S3, folding, requirement container, body type, provider
       \* kind, session token, logger, target form, request shape, defect
       [] Family = "cfgmix"   -> V(<<2, 2, 2, 3, 3, 2, 2, 2, 2, 3, 4>>, k)
@@ -957,7 +970,9 @@ BundleOf ==
                 L1  == IF idx[3] = 1 THEN [b.L EXCEPT !.query = B("X-Amz-Expires=") \o ev]
                        ELSE [b.L EXCEPT !.hdrs = @ \o << <<B("X-Amz-Expires"), ev>> >>]
             IN [b EXCEPT !.L = [L1 EXCEPT !.signed = SignAll(L1), !.ts = RenderTs(inst, 1), !.scope = [@ EXCEPT ![1] = ScopeDate(inst)]]]
-      [] Family = "window_frac" ->
+      [] Family = "leak_scope" ->
+            LET b == Bundle0(CarrierOf(idx[1])) IN [b EXCEPT !.L.scope = ScopeVariants[idx[2]]]
+      [] Family \in {"window_frac", "leak_window"} ->
             LET b    == Bundle0(CarrierOf(idx[1]))
                 now  == FracNows[idx[2]]
                 whole == <<now[1], now[2], 0>>
@@ -965,7 +980,7 @@ BundleOf ==
                 inst == IF k <= 6 THEN AddSec(whole, <<-901, -900, -899, 899, 900, 901>>[k])
                         ELSE LET pr == << <<-900, -1>>, <<-900, 0>>, <<-900, 1>>, <<900, -1>>, <<900, 0>>, <<900, 1>>, <<-901, 0>>, <<901, 0>> >>[k - 6]
                              IN AddNano(AddSec(now, pr[1]), pr[2])
-            IN [b EXCEPT !.L.ts = RenderTs(inst, IF idx[4] = 1 THEN 1 ELSE 2), !.cfg.now = now,
+            IN [b EXCEPT !.L.ts = RenderTs(inst, <<1, 2, 8>>[idx[4]]), !.cfg.now = now,
                          !.L.scope = [@ EXCEPT ![1] = ScopeDate(inst)]]
       [] Family = "leak_long" ->
             \* long components with two-byte characters at every byte offset (shift 0 / 1), logger enabled at Trace level
